@@ -96,9 +96,22 @@ def table_rows(X):
         if f is not None and f.body is not None:
             rows.append(("CO.%s.count" % (d or "std"), "count_counts_rows(%s, %s)" % (lit(f.body), "true" if "coalesce" in f.ann else "false"),
                          "std.sql.prql:%d %s.count body=%r" % (f.line, d or "std", f.body)))
+    # WFA rows (C04): the SQL functions whose value depends on the window FRAME - the aggregates and FIRST_VALUE / LAST_VALUE (SQL:2003 6.10: aggregate and value window functions
+    # take the frame; ranking functions and LAG / LEAD do not) - must carry `window_frame=true`, or translate_windowed emits no frame clause for them and the database's default
+    # frame (RANGE UNBOUNDED PRECEDING .. CURRENT ROW as soon as there is an ORDER BY) replaces the one the pipeline asks for
+    for d in dialects:
+        for name in FRAME_SENSITIVE:
+            f = effective(funcs, d, name)
+            if f is None or f.body is None:
+                continue
+            rows.append(("WFA.%s.%s" % (name, d or "std"), "takes_frame(%s)" % ("true" if f.ann.get("window_frame") == "true" else "false"),
+                         "std.sql.prql:%d %s.%s window_frame=%r" % (f.line, d or "std", name, f.ann.get("window_frame"))))
     if len(rows) < 8:
         raise ExtractionError("std.sql.prql: definitions of sum / any / all / count not found (table anchor lost)")
     return rows
+
+
+FRAME_SENSITIVE = ["min", "max", "sum", "average", "stddev", "all", "any", "concat_array", "count", "count_distinct", "first", "last"]
 
 
 def lit(s):
@@ -165,6 +178,7 @@ def build(X):
 pub open spec fn empty_default_ok(want: Seq<char>, got: Option<Seq<char>>) -> bool { got == Some(want) }
 // `count` counts rows: COUNT(*) - not COUNT(column), which skips NULL entries - and is not given an empty-input default (COUNT over no rows is 0 already)
 pub open spec fn count_counts_rows(body: Seq<char>, has_default: bool) -> bool { body == "COUNT(*)"@ && !has_default }
+pub open spec fn takes_frame(annotated: bool) -> bool { annotated }
 """]
     for (lab, claim, src) in rows:
         fn = "row_" + re.sub(r"[^A-Za-z0-9]", "_", lab)
